@@ -424,9 +424,17 @@ func (m *MmsTables) isClosed() bool {
 	}
 }
 
+// stopCompMergeSignal returns the current stop channel; the field is replaced under
+// inCompLock by disableCompAndMerge / EnableCompAndMerge.
+func (m *MmsTables) stopCompMergeSignal() chan struct{} {
+	m.inCompLock.RLock()
+	defer m.inCompLock.RUnlock()
+	return m.stopCompMerge
+}
+
 func (m *MmsTables) isCompMergeStopped() bool {
 	select {
-	case <-m.stopCompMerge:
+	case <-m.stopCompMergeSignal():
 		return true
 	default:
 		return false
